@@ -213,10 +213,11 @@ class SymCtx:
         if k in self.reproduced or self.attempts.get(k, 0) >= 2:
             return False
         self.attempts[k] = self.attempts.get(k, 0) + 1
-        from .ops import MARGIN_T, MARGINS
+        from .ops import MARGINS
+        from .symx import lift
 
         neg = z3.Not(_zb(c.t))
-        nrs = [z3.substitute(_zb(c.nr), (MARGIN_T, z3.RealVal(repr(mg)))) for mg in MARGINS]
+        nrs = [_zb(c.nr)] + [z3.substitute(_zb(c.nr), (lift(MARGINS[0]), lift(mg))) for mg in MARGINS[1:]]
         soft = list(self.nice_terms)
         cand = {"label": label, "key": k, "info": info, "choices": dict(self.path_choices)}
         tried = []
